@@ -97,3 +97,41 @@ def debug_class(op, impl):
     if sep and any(("i" in c and "t" in c and "c" in c and "l" not in c) for c in comps):
         return "sep-itc-without-leading"
     return syntax_class(op, "err")      # e.g. the uncounted 8-digit block trips a debug_assert
+
+
+def is_digit(c, radix):
+    ch = chr(c)
+    if ch.isdigit():
+        return int(ch) < radix
+    if ch.isalpha() and ch.isascii():
+        return ord(ch.lower()) - 87 < radix
+    return False
+
+
+def c11_class(op, impl):
+    """classes of known partial-vs-complete disagreements (C11); `op` is the PARTIAL op, `impl` its result"""
+    k, ty, f, partial, inp = parse_op(op)
+    if f is None:
+        return None
+    it = impl.split(" ")
+    sign_len = 1 if inp[:1] in (b"+", b"-") else 0
+    sep = f["sep"]
+    rest = inp[sign_len:]
+    first = rest[0] if rest else None     # byte right after the optional sign
+    n = int(it[2]) if it[0] == "ok" and len(it) > 2 and it[2].isdigit() else None
+    consumed = inp[:n] if n is not None else b""
+    if k == "pi" and f["suffix"]:
+        return "int-base-suffix-partial"
+    if k == "pi" and f["prefix"] and consumed[sign_len:sign_len + 1] == b"0" and len(consumed) == sign_len + 2 \
+            and consumed[-1:].lower() == bytes([f["prefix"]]).lower():
+        return "int-base-prefix-without-digits"
+    if k == "pf" and f["radix"] >= 19 and first is not None and chr(first).lower() in "ni":
+        return "special-letters-are-digits"
+    if n is not None and sep and consumed[-1:] == bytes([sep]):
+        return "partial-count-includes-trailing-separator"
+    if k == "pi" and f["nolz_int"] and rest[:1] == b"0":
+        return "int-no-leading-zeros-partial"
+    # partial returned Ok although the byte after the optional sign is not a digit (no digit was consumed)
+    if n is not None and n <= sign_len + sum(1 for c in consumed[sign_len:] if sep and c == sep) and (first is None or not is_digit(first, f["radix"])):
+        return "partial-ok-without-digit"
+    return syntax_class(op, impl)
